@@ -350,6 +350,15 @@ func lcsUnique(a, b []string) bool {
 }
 
 // tierAOK: unique texts within each version, nothing re-added after deletion along any path, unique LCS on each edge.
+// eff returns the lines as a diff sees them: a last line without newline is a different line than the same text with one.
+func (h *hist) eff(i int) []string {
+	l := h.commits[i].lines
+	if h.noNL && i == len(h.commits)-1 && len(l) > 0 && l[len(l)-1] != "" {
+		l = append(append([]string{}, l[:len(l)-1]...), l[len(l)-1]+"\x00no-newline")
+	}
+	return l
+}
+
 func (h *hist) tierAOK() bool {
 	for i, c := range h.commits {
 		seen := map[string]bool{}
@@ -361,7 +370,7 @@ func (h *hist) tierAOK() bool {
 		}
 		anc := map[string]bool{} // texts present in any parent
 		for _, p := range c.parents {
-			if !lcsUnique(h.commits[p].lines, c.lines) {
+			if !lcsUnique(h.eff(p), h.eff(i)) {
 				return false
 			}
 			for _, l := range h.commits[p].lines {
